@@ -18,6 +18,8 @@ import JsonV.Lemmas.PointerUtf8
 import JsonV.Lemmas.PointerSim
 import JsonV.Lemmas.PointerMachine
 import JsonV.Lemmas.PositionTok
+import JsonV.Lemmas.PointerErr
+import JsonV.Lemmas.PositionLex
 
 namespace JsonV.Props.C16
 open JsonV JsonV.Model JsonV.Model.Pointer JsonV.Spec.Pointer JsonV.Lemmas.Pointer
@@ -164,6 +166,64 @@ example : AState.init.run [.beginObj, .str [0x61, 0x2f, 0x62], .beginArr, .scala
 example : pointerOf (-1) [.beginObj, .str [0x61, 0x2f, 0x62], .beginArr, .scalar, .scalar] =
     some [.name [0x61, 0x2f, 0x62], .index 1] := by decide
 
+/-! ### errors.go: pointerSuffixError and the JSONPointer of wrapSyntacticError -/
+
+/-- **Reversed suffix**: unwinding through `path` (innermost frame first: `wrapWithObjectName` / `wrapWithArrayIndex`
+append "/"+escaped name or "/"+index to `reversePointer`) and then `appendPointer` (which re-reverses by splitting at
+the last '/') appends exactly the rendering of `path` — for EVERY name: '/', '~', both, ill-formed UTF-8
+(the latter as Go's `range` reads it).  In particular `appendPointer` never hits its slice-bounds panic. -/
+theorem suffix_spec (path : List Ref) (ptr : Bytes) :
+    appendPointer (buildRev path) ptr = some (ptr ++ render (path.map refToken)) :=
+  Lemmas.Pointer.suffix_spec path ptr
+
+/-- `appendPointer` on any '/'-separated segments: it reverses their order. -/
+theorem appendPointer_spec (segs : List Bytes) (hs : ∀ a ∈ segs, ∀ b ∈ a, b ≠ cSlash) (bo : Bytes) :
+    appendPointer (joinSegs segs) bo = some (bo ++ joinSegs segs.reverse) :=
+  appendPointer_segs segs hs bo
+
+/-- **err_pointer**: after any accepted token history, the JSONPointer `wrapSyntacticError` computes without a suffix
+(ReadToken, and ReadValue at the start of a value) — for where ∈ {-1,0,+1}, where = +1 on the mismatched-delimiter
+branch as at every call site — is `ptr(C)` or `ptr(C)/next` for the innermost open container `C`
+(`containerOf`: `next` = member name read last, or index of the element read last / being read). Never an ancestor. -/
+theorem err_pointer (hist : List Tok) (w : Int) (hw : w = -1 ∨ w = 0 ∨ w = 1) (mm : Bool) (hmm : mm = true → w = 1)
+    (s : AState) (hrun : AState.init.run hist = some s) :
+    ∃ p C nexts, containerOf hist = some (C, nexts) ∧ wrapSyntacticErrorPtr s w none mm = some p ∧
+      (p = render (C.map refToken) ∨ ∃ x ∈ nexts, p = render ((C ++ [x]).map refToken)) :=
+  Lemmas.Pointer.err_pointer hist w hw mm hmm s hrun
+
+/-- **err_pointer, duplicate name** (ReadToken/WriteToken: `wrapWithObjectName(ErrDuplicateName, name)`, where = +1,
+a name being expected): exactly the duplicated member `ptr(C)/name`, escaped. -/
+theorem err_pointer_dup (hist : List Tok) (s : AState) (hrun : AState.init.run hist = some s)
+    (hneed : s.stack.head?.map SEntry.needObjectName = some true) (dup : Bytes) :
+    ∃ C nexts, containerOf hist = some (C, nexts) ∧
+      wrapSyntacticErrorPtr s 1 (some (wrapWithObjectName [] dup)) false =
+        some (render ((C ++ [Ref.name dup]).map refToken)) :=
+  Lemmas.Pointer.err_pointer_dup hist s hrun hneed dup
+
+/-- **err_pointer, errors nested inside ReadValue / WriteValue**: the stack pointer followed by the path inside the
+value, every reference token escaped; `Tokens` of the result are the names and indices themselves. -/
+theorem err_pointer_nested (hist : List Tok) (w : Int) (hw : w = -1 ∨ w = 0 ∨ w = 1) (s : AState)
+    (hrun : AState.init.run hist = some s) (path : List Ref) :
+    ∃ base, pointerOf w hist = some base ∧
+      wrapSyntacticErrorPtr s w (some (buildRev path)) false = some (render ((base ++ path).map refToken)) ∧
+      tokens (render ((base ++ path).map refToken)) = (base ++ path).map refToken := by
+  obtain ⟨base, h1, h2⟩ := Lemmas.Pointer.err_pointer_nested hist w hw s hrun path
+  exact ⟨base, h1, h2, Lemmas.Pointer.tokens_render _⟩
+
+/-- The statement on the packed machine (`MState`, names maintained as the code does), through `mrun_view`. -/
+theorem err_pointer_machine (max : Nat) (hist : List Tok) (hlen : hist.length < 2^61) (w : Int)
+    (hw : w = -1 ∨ w = 0 ∨ w = 1) (mm : Bool) (hmm : mm = true → w = 1) (s : MState)
+    (hrun : MState.run max {} hist = .ok s) :
+    ∃ p C nexts, containerOf hist = some (C, nexts) ∧ wrapSyntacticErrorPtr s.view w none mm = some p ∧
+      (p = render (C.map refToken) ∨ ∃ x ∈ nexts, p = render ((C ++ [x]).map refToken)) := by
+  have hv := mrun_view hist (minv_init max) (by omega) hrun
+  exact Lemmas.Pointer.err_pointer hist w hw mm hmm s.view hv
+
+/-- `{"x/y":[0,0,{"~":` … an error two levels inside a value read at the top level: "/x~1y/2/~0". -/
+example : appendPointer (buildRev [.name [0x78, 0x2f, 0x79], .index 2, .name [0x7e]]) [] =
+    some [0x2f, 0x78, 0x7e, 0x31, 0x79, 0x2f, 0x32, 0x2f, 0x7e, 0x30] :=
+  (suffix_spec _ _).trans (by decide)
+
 /-! ### Positions on the token-path model (slice C01's Model/TokenLoop.lean) -/
 
 section Positions
@@ -209,12 +269,17 @@ theorem f2_counterexample :
     ¬ Viable maxNestingDepth [.beginObj, .lit] := by
   refine ⟨by decide, by decide +kernel, by decide, by decide +kernel, by decide, by decide⟩
 
-/-- NOT PROVED (lexical errors in VALUE position): the part of a token before the lexer's error offset can be completed
-to a token of the same kind, so that together with `err_viable_partial` the bytes before `ByteOffset` are a viable
-prefix of JSON at byte level.  Checked by the harness tracker on mutated texts. -/
-def err_viable_lexical_full : Prop :=
-  ∀ (o : VOpts) (r : Bytes) (n : Nat) (e : Err), lexer o r = some (n, e) → e ≠ .ok → e ≠ .fuel → e ≠ .bug →
-    ∃ ext m, lexer o (r.take n ++ ext) = some (m, .ok) ∧ n ≤ m
+/-- **err_viable, lexical part**: whenever the lexer of a token (literal, number or string) fails at relative offset
+`n`, the bytes of the token before that offset can be completed to a token of the same kind that the lexer accepts
+(`nul` → `null`, `1.` → `1.0`, `"ab\x` → `"ab"`; a truncated number is reported at offset 0).  Together with
+`err_viable_partial`: `input[:ByteOffset]` = viable token kinds + blanks + a completable token prefix — a viable prefix
+of JSON at byte level whenever the state machine accepts that token kind (it does not in NAME position: `f2_counterexample`). -/
+theorem err_viable_lexical (o : VOpts) (r : Bytes) (n : Nat) (e : Err) (h : lexer o r = some (n, e)) (he : e ≠ .ok) :
+    ∃ ext m, lexer o (r.take n ++ ext) = some (m, .ok) ∧ n ≤ m :=
+  lexical_completion o r n e h he
+
+example : lexer {} [0x6e, 0x75, 0x6c, 0x7d] = some (3, .invalidChar) ∧ lexer {} [0x31, 0x2e, 0x78] = some (2, .invalidChar) ∧
+    lexer {} [0x22, 0x61, 0x5c, 0x78] = some (2, .invalidEscape) := by decide
 
 example : (reads {} 3 {} [0x7b, 0x22, 0x61, 0x22, 0x3a, 0x5b, 0x5d] 0).map (fun x => (x.2.1, stackDepth x.1.m, stackIndex x.1.m 1)) =
     some (6, 2, some (0x7b, 2)) := by decide
